@@ -58,14 +58,18 @@ def c04(raw, outp):
             if r.get("e") != "QRow":
                 continue
             base = {k: r[k] for k in ("row", "q", "nc", "m", "es", "pred", "builtin", "expert", "explicit", "eok", "dok", "skipok", "type")}
+            base["other_skip_ok"] = r.get("other_skip_ok", True)
             base["e"] = "Quant"
-            rec = dict(base, n=0, half_u=0, allow_u=0, worst_err_u=0, worst_box_u=0, nonfinite=0, bits_ok=True, k_far=0, tiny_range=False, sample=[])
+            rec = dict(base, n=0, half_u=0, allow_u=0, worst_err_u=0, worst_box_u=0, nonfinite=0, bits_ok=True, k_far=0, tiny_range=False, sample=[], other_skip_same=True)
             if not (r["eok"] and r["dok"]):
                 out.write(json.dumps(rec) + "\n"); n_rows += 1
                 continue
             nc, q = r["nc"], r["q"]
             xs = [[frac(b) for b in p] for p in r["x"]]
             xd = [[frac(b) for b in p] for p in r["xd"]]
+            # the same stream decoded with an unrelated attribute's transform skipped: judged by the same bound, and equal bit for bit to the plain decode
+            xd2 = [[frac(b) for b in p] for p in r.get("xd2") or []]
+            rec["other_skip_same"] = (not r.get("xd2")) or r["xd2"] == r["xd"]
             if r["explicit"]:
                 lo = [frac(b) for b in r["origin"]]
                 R = frac(r["erange"])
@@ -91,9 +95,12 @@ def c04(raw, outp):
             worst_err = worst_box = 0
             smin = [frac(b) for b in r["min"]] if r["skipok"] and r["min"] else None
             srange = frac(r["range"]) if r["skipok"] else None
-            for i, p in enumerate(xs):
+            for which, dec in (("xd", xd), ("xd2", xd2)):
+              if which == "xd2" and not dec:
+                continue
+              for i, p in enumerate(xs):
                 for c in range(nc):
-                    d = xd[i][c] if i < len(xd) and c < len(xd[i]) else None
+                    d = dec[i][c] if i < len(dec) and c < len(dec[i]) else None
                     rec["n"] += 1
                     if d is None:
                         rec["nonfinite"] += 1
@@ -102,7 +109,7 @@ def c04(raw, outp):
                     eu = floor_u(err, unit)
                     if eu > worst_err:
                         worst_err = eu
-                        rec["sample"] = [{"x": r["x"][i][c], "xd": r["xd"][i][c], "comp": c, "err_u": eu}]
+                        rec["sample"] = [{"x": r["x"][i][c], "xd": r[which][i][c], "comp": c, "err_u": eu, "decode": which}]
                     excess = max(lo[c] - d, d - (lo[c] + R), 0)
                     worst_box = max(worst_box, floor_u(excess, unit))
                     # diagnostic (Level B): decoded integer vs the exact nearest grid index under the stream's own parameters
